@@ -197,6 +197,8 @@ pub fn cleanup_strat() -> BoxedStrategy<Cln> {
         3 => prop_oneof![Just(0usize), Just(1usize), Just(2usize), Just(3usize), Just(5usize)].prop_map(Cln::Keep),
         2 => prop_oneof![Just(0usize), Just(1usize), Just(2usize), Just(3usize)].prop_map(Cln::KeepGz),
         3 => (prop_oneof![Just(0usize), Just(1usize), Just(2usize), Just(3usize)], prop_oneof![Just(0usize), Just(1usize), Just(2usize), Just(3usize)]).prop_map(|(k, m)| Cln::KeepBoth(k, m)),
+        // limits at the end of the integer range ("keep everything")
+        1 => prop_oneof![Just(Cln::Keep(usize::MAX)), Just(Cln::KeepGz(usize::MAX)), Just(Cln::KeepBoth(usize::MAX, 1)), Just(Cln::KeepBoth(1, usize::MAX)), Just(Cln::KeepBoth(usize::MAX, usize::MAX))],
     ]
     .boxed()
 }
